@@ -19,6 +19,8 @@ type ECase struct {
 	Name  string // replayable identity of the input
 	Class string // coarse class (distinct-class count in the evidence)
 	Run   func(w *World) []Violation
+	// Weight is the number of elementary evaluations inside the case (default 1)
+	Weight int
 }
 
 type ESpec struct {
@@ -117,8 +119,12 @@ func runE(t *testing.T, job *Job, res *Result, spec *ESpec) {
 		if r.Infra != "" {
 			g.Infra = append(g.Infra, fmt.Sprintf("batch starting at case %q: %s", spec.Cases[idxs[0]].Name, r.Infra))
 		}
-		g.Evaluations += len(idxs)
 		for _, i := range idxs {
+			wt := spec.Cases[i].Weight
+			if wt <= 0 {
+				wt = 1
+			}
+			g.Evaluations += wt
 			g.DistinctKeys[spec.Cases[i].Class] = struct{}{}
 			g.Histogram[strings.SplitN(spec.Cases[i].Class, " ", 2)[0]]++
 		}
